@@ -514,6 +514,27 @@ func (w *World) run() {
 	w.plainUses()
 	// a package-level variable of a tracked package that is accessed with sync/atomic is module-wide lock-free state:
 	// the lock discipline says nothing about how one resource's updates of it influence another resource's decisions
+	// ... and so is a package-level sync/atomic.Value / atomic.IntNN / atomic.Pointer (a lazily rebuilt cache, a counter)
+	for _, p := range w.order {
+		if !p.track {
+			continue
+		}
+		sc := p.tpkg.Scope()
+		for _, n := range sc.Names() {
+			v, ok := sc.Lookup(n).(*types.Var)
+			if !ok {
+				continue
+			}
+			t := v.Type()
+			if pt, ok := t.(*types.Pointer); ok {
+				t = pt.Elem()
+			}
+			if nt, ok := t.(*types.Named); ok && nt.Obj().Pkg() != nil && nt.Obj().Pkg().Path() == "sync/atomic" {
+				w.unknowns = append(w.unknowns, Unknown{Phase: "live", Fn: p.rel + "." + n, Pos: w.pos(v.Pos()),
+					What: "package-level variable " + p.rel + "." + n + " of type sync/atomic." + nt.Obj().Name() + ": module-wide lock-free state (cache / counter) is outside the lock-discipline and one-snapshot model (a request may re-publish a replaced rule list; one resource's updates may change another's decisions)"})
+			}
+		}
+	}
 	for obj, k := range w.atomObj {
 		v, ok := obj.(*types.Var)
 		if !ok || v.IsField() || v.Pkg() == nil {
